@@ -10,6 +10,7 @@ CONSTANTS
   ArmKinds = {"poll", "rhead", "hreceipt", "rreceipt", "rtime"}
   RemineStatus = {0, 1}
   MidScanHeads = TRUE
+  HeldIntake = TRUE
   MaxHeads = 6
   MaxMine = 3
   MaxPush = 4
